@@ -752,13 +752,22 @@ class Lexer(object):
     )
     identifier = identifier_start + identifier_part
 
-    getprop = r'get' + r'(?=\s' + identifier + r')'
+    # get and set are only keywords where they introduce an accessor
+    # property (11.1.5), i.e. when followed by white space, a property
+    # name (an identifier name, a string or a number) and a left
+    # parenthesis; anywhere else they are plain identifiers.
+    accessor = (
+        r'(?=[\s\ufeff]+(?:' + identifier + r'|' + string + r'|' + t_NUMBER +
+        r')[\s\ufeff]*\()'
+    )
+
+    getprop = r'get' + accessor
 
     @ply.lex.TOKEN(getprop)
     def t_GETPROP(self, token):
         return token
 
-    setprop = r'set' + r'(?=\s' + identifier + r')'
+    setprop = r'set' + accessor
 
     @ply.lex.TOKEN(setprop)
     def t_SETPROP(self, token):
